@@ -200,6 +200,10 @@ pub fn run(ctx: &Ctx, rep: &mut Report) {
         let acc = Acc::merged(accs);
         rep.add_space("all C(64,4) four-bit values and their complements", &acc, t0, "");
     }
+    {
+        let items: Vec<Case> = [0u64, 1, 3, (1 << 51) | 1, (1 << 52) | 1, (1 << 63) | (1 << 52), 7, u64::MAX, (1 << 20) | (1 << 19), !((1u64 << 52) - 1) | 3].iter().map(|b| Case::new("try_from", &[*b])).collect();
+        super::history2(rep, judge, &items);
+    }
     // call sequences: all ordered pairs and triples over the 64 sets of a 6-bit universe (two low card bits, two high
     // card bits, two non-card bits) - a memo of an earlier conversion must not leak into a later one
     {
